@@ -25,10 +25,19 @@ C("utils.py::read_xml_encoding", params={"body": "bytes"},
   notes="ASSUMED (body uses a bytes regex; not yet verified): returns None unless the body starts "
         "with an XML declaration")
 
+TEXT = "ascii_ignore(body)"
 C("utils.py::detect_encoding", params={"body": "bytes", "default_encoding": "str"},
-  ensures=["result[0] is not None or result[1] == default_encoding"],
-  result="tuple[opt[str],str]", serves=["C17"], kind="assumed",
-  notes="ASSUMED: (None, default) unless a meta element is found")
+  ensures=[
+      # the WHOLE document is searched for the meta element
+      "re_nomatch('RE_META', 'search', %s) or (result[0] == re_group('RE_META', 'search', %s, 1) "
+      "and result[1] == re_group('RE_META', 'search', %s, 2))" % (TEXT, TEXT, TEXT),
+      "not re_nomatch('RE_META', 'search', %s) or (result[0] is None and result[1] == default_encoding)" % TEXT,
+  ],
+  result="tuple[opt[str],str]", serves=["C17"],
+  ghost={'search': {'generator': ('bounded.bytes_harness', 'gen_meta_docs')},
+         'harness': ('bounded.bytes_harness', 'detect_encoding')},
+  notes="bytes input (the read_bytes call path); RE_META's match is an uninterpreted function of the "
+        "searched text")
 
 C("utils.py::read_bytes", params={"body": "bytes", "default_encoding": "str"},
   inline=["encode_string"],
